@@ -98,6 +98,10 @@ pub enum Step {
     ServerStart,
     /// Bytes from a (possibly malicious) client on a client channel given by raw id.
     Inject { client: u8, channel: u8, bytes: Vec<u8> },
+    /// A real message waiting in the client's uplink queue is copied, mutated and handed to the server
+    /// (kind: 0 bit flip at `a`, 1 truncate to `a`, 2 append `b` x (a % 16), 3 overwrite byte `a` with `b`,
+    /// 4 splice a maximal varint in at `a`). The original stays queued.
+    InjectMut { client: u8, chan: Chan, kind: u8, a: u16, b: u8 },
     /// Faults stop here; the executor appends the quiescence loop.
     Heal,
 }
@@ -116,6 +120,7 @@ impl Step {
                 | Step::Disconnect { .. }
                 | Step::ServerStop
                 | Step::Inject { .. }
+                | Step::InjectMut { .. }
                 | Step::TickJump { .. }
         )
     }
@@ -148,6 +153,7 @@ impl Step {
             Step::ServerStop => "server_stop",
             Step::ServerStart => "server_start",
             Step::Inject { .. } => "inject",
+            Step::InjectMut { .. } => "inject_mutated",
             Step::Heal => "heal",
         }
     }
